@@ -445,10 +445,15 @@ class PVLEncoder(object):
         except LexerError:
             tokens = list()
 
+        # As in needs_quotes(): the default loader reads more as a number
+        # or a date/time than the strict dialects do (12:00+01 in PVL-text).
+        omni = Token(name, grammar=_omni_grammar, decoder=_omni_decoder)
+
         if (
             len(tokens) != 1
             or str(tokens[0]) != name
             or not tokens[0].is_parameter_name()
+            or not omni.is_parameter_name()
         ):
             raise ValueError(
                 f'The {kind} "{name}" cannot be written: it would not be '
